@@ -22,7 +22,7 @@ def gen_consts(v):
                             ents, os.path.join(v.VERIF, 'props', ID, 'coq', 'Gen.v'),
                             extra_sources=['olad/plugin_api/DmxSource.cpp', 'common/utils/Clock.cpp'])
 
-SPEC_KEYS = ['obs', 'cnt', 'once', 'crash']
+SPEC_KEYS = ['obs', 'cnt', 'once', 'crash', 'sigpipe']
 
 
 SIZES = [0, 1, 1, 2, 3, 3, 4, 512, 513, 600]
@@ -208,7 +208,9 @@ ASSUMPTIONS = ['RPC transport abstracted to per-direction FIFO delivery of whole
                'iteration order of std::map/std::set keyed by Client* does not influence results (order-independent merge, per-client channels)',
                'virtual time: clock_gettime(CLOCK_MONOTONIC) wrapped; total advance per case < 10 s so that the '
                'housekeeping timer only runs when the history says so (op H calls OlaServer::RunHousekeeping)',
-               'operator new does not fail']
+               'operator new does not fail',
+               'the harness resets SIGPIPE to SIG_DFL before OlaServer::Init() and only observes afterwards: key sigpipe=1 when the '
+               'daemon left the default disposition (or a SIGPIPE was delivered during the case); the model fixes it to 0']
 TRUSTED = ['modelled rather than verified: OlaClientCore SendDMX/FetchDMX/RegisterUniverse/SetUniverseMergeMode/'
            'SetUniverseName/FetchUniverseInfo/Patch + Handle* completions + UpdateDmxData, RpcChannel CallMethod/'
            'HandleRequest/HandleStreamRequest/HandleResponse/HandleFailedResponse/SendMsg failure path, RpcServer::'
